@@ -1,5 +1,6 @@
 import RgVerif.Lemmas.HirStrip
 import RgVerif.Lemmas.HirNonMatching
+import RgVerif.Lemmas.HirConfig
 /-
 C11 — line-mode matcher promises hold for every accepted pattern over all lines.
 
@@ -93,6 +94,163 @@ theorem nonmatching_sound (lk : LookFn) (h : Hir) (b : Nat) (hay : Bytes) (s e :
   rw [(mem_nonMatching.1 hb).2] at this
   cases this
 
+/-! ### (c) the candidate-line search never passes over a line containing a match -/
+
+/-- The invariant of DESIGN §4.11 holds for the sequence `Extractor::extract` returns, for every
+HIR and every match (the core induction over `literal.rs`: `cross`, `union` with its 4-byte trim,
+`choose`, the restart loop of `extract_concat`, the four repetition arms, class and literal limits). -/
+theorem extract_inv (lk : LookFn) (h : Hir) (hay : Bytes) (s e : Nat) (hm : Matches lk h hay s e) :
+    (extract h).Inv (slice hay s e) :=
+  Rx.extract_inv h hm
+
+/-- Every match of `h` contains one of the extracted literals. -/
+theorem extract_sound (lk : LookFn) (h : Hir) (L : List Lit) (hay : Bytes) (s e : Nat)
+    (hL : (extract h).seq = some L) (hm : Matches lk h hay s e) : ∃ l ∈ L, l.bytes <:+: slice hay s e :=
+  extract_infix hL hm
+
+/-- The certificate for the un-modelled `optimize_for_prefix_by_preference`: if every literal of `L`
+has a literal of `L'` inside it, any word containing a literal of `L` contains one of `L'`. -/
+theorem covers_sound (L L' : List Lit) (hc : covers L L' = true) (w : Bytes)
+    (h : ∃ l ∈ L, l.bytes <:+: w) : ∃ l' ∈ L', l'.bytes <:+: w :=
+  covers_infix hc h
+
+/-- The leftmost-literal search finds an occurrence at or before the one inside the match, and — the
+literals being free of the terminator `t` — no terminator lies between the end of the match and the
+reported offset: the candidate is on the line of the match or on an earlier line. -/
+theorem fastFind_never_skips (lk : LookFn) (h : Hir) (L L' : List Lit) (t : Nat) (hay : Bytes) (s e : Nat)
+    (hL : (extract h).seq = some L) (hc : covers L L' = true) (hno : litsNoByte t L' = true)
+    (hm : Matches lk h hay s e) :
+    ∃ i, fastFind L' hay = some i ∧ NoByteIn t hay e i := by
+  have hsp := Matches.span hm
+  obtain ⟨l', hl', hin⟩ := covers_infix hc (extract_infix hL hm)
+  obtain ⟨q, hq1, hq2, hq3⟩ := infix_slice_pos hsp.2 hsp.1 hin
+  obtain ⟨p, l, hfind, _, hp2, hl, hpre⟩ :=
+    fastFindFrom_spec L' hay (hay.length + 1) 0 q l' (Nat.zero_le _) (by omega) (by omega) hl' hq3
+  refine ⟨p + l.bytes.length, hfind, ?_⟩
+  have hfree : t ∉ l.bytes := by
+    unfold litsNoByte at hno
+    rw [List.all_eq_true] at hno
+    simpa using hno l hl
+  have := prefix_drop_noByte hpre hfree
+  intro i h1 h2
+  exact this i (by omega) h2
+
+/-- What is assumed of the two external functions, each validated on every run by the harness:
+the optimiser keeps the infinite sequence infinite and its output covers its input (certificate
+`covers`, checked on the real output), and its literals are free of the terminator bytes
+(certificate `litsNoByte`, checked on the real output). -/
+structure OptimizeCert (optimize : Seq → Seq) (h : Hir) (termBytes : List Nat) : Prop where
+  inf : optimize none = none
+  cov : ∀ L L', (extract h).seq = some L → optimize (some L) = some L' → covers L L' = true
+  noTerm : ∀ L L', (extract h).seq = some L → optimize (some L) = some L' → ∀ t ∈ termBytes, litsNoByte t L' = true
+
+/-- Contract of the regex engine behind `shortest_match` (validated, not proven): the reported
+offset is the end of a match whose start is minimal; no answer means no match. -/
+structure EngineSpec (lk : LookFn) (h : Hir) (shortest : Bytes → Option Nat) : Prop where
+  some_ : ∀ hay i, shortest hay = some i → ∃ s, Matches lk h hay s i ∧ ∀ s' e', Matches lk h hay s' e' → s ≤ s'
+  none_ : ∀ hay, shortest hay = none → ∀ s e, ¬ Matches lk h hay s e
+
+/-- **C11**: for every configuration, every pattern list and every HIR the translator may return, if
+`build_many` yields a matcher then, for ALL haystacks and ALL matches of its expression,
+(a) the match contains no byte of the configured line terminator,
+(b) it contains no byte declared non-matching,
+(c) `find_candidate_line` answers, and no terminator byte lies between the end of the match and the
+    reported offset (so the reported line is the line of the match or an earlier one). -/
+theorem C11 (lk : LookFn) (cfg : Config) (pats : List Bytes) (translated : Hir) (accelerated : Bool)
+    (optimize : Seq → Seq) (shortest : Bytes → Option Nat) (m : MatcherM)
+    (hb : cfg.build pats translated accelerated optimize = .ok m)
+    (termBytes : List Nat) (htb : termBytes = (cfg.lineTerm.map LineTerm.bytes).getD [])
+    (hopt : OptimizeCert optimize m.hir termBytes)
+    (heng : EngineSpec lk m.hir shortest)
+    (hay : Bytes) (s e : Nat) (hm : Matches lk m.hir hay s e) :
+    (∀ t ∈ termBytes, t ∉ slice hay s e) ∧
+    (∀ b ∈ m.nonMatching, b ∉ slice hay s e) ∧
+    (∃ c, m.findCandidateLine shortest hay = some c ∧ ∀ t ∈ termBytes, NoByteIn t hay e c.offset) := by
+  unfold Config.build at hb
+  split at hb
+  · cases hb
+  · rename_i h0 hcfg
+    simp only [Except.ok.injEq] at hb
+    subst hb
+    simp only at hm hopt heng ⊢
+    have hm0 : Matches lk h0 hay s e := matches_wrap cfg hm
+    -- (a)
+    have ha : ∀ t ∈ termBytes, t ∉ slice hay s e := by
+      intro t ht
+      subst htb
+      cases hlt : cfg.lineTerm with
+      | none => simp [hlt] at ht
+      | some lt =>
+        simp only [hlt, Option.map_some, Option.getD_some] at ht
+        exact configuredHir_noTerm hcfg hlt hm0
+          (fun h' hs hm' => strip_sound_lineterm lk translated h' lt hay s e hs hm') t ht
+    refine ⟨ha, ?_, ?_⟩
+    · -- (b)
+      intro b hb
+      exact nonmatching_sound lk _ b hay s e hb hm
+    · -- (c)
+      unfold MatcherM.findCandidateLine
+      simp only
+      split
+      · rename_i L' hfl
+        -- the literal search
+        unfold fastLiterals at hfl
+        split at hfl
+        · split at hfl
+          · rename_i Lf hfin
+            split at hfl
+            · cases hfl
+            · cases hfl
+              unfold finishUntagged at hfin
+              split at hfin
+              · cases hex : (extract (cfg.wrap h0)).seq with
+                | none => rw [hex, hopt.inf] at hfin; cases hfin
+                | some L =>
+                  rw [hex] at hfin
+                  have hc := hopt.cov L L' hex hfin
+                  -- one witness offset serves every terminator byte
+                  obtain ⟨l', hl', hin⟩ := covers_infix hc (extract_infix hex hm)
+                  have hsp := Matches.span hm
+                  obtain ⟨q, hq1, hq2, hq3⟩ := infix_slice_pos hsp.2 hsp.1 hin
+                  obtain ⟨p, l, hfind, _, hp2, hl, hpre⟩ :=
+                    fastFindFrom_spec L' hay (hay.length + 1) 0 q l' (Nat.zero_le _) (by omega) (by omega) hl' hq3
+                  refine ⟨.candidate (p + l.bytes.length), ?_, ?_⟩
+                  · unfold fastFind; rw [hfind]; rfl
+                  · intro t ht
+                    have hno := hopt.noTerm L L' hex hfin t ht
+                    have hfree : t ∉ l.bytes := by
+                      unfold litsNoByte at hno
+                      rw [List.all_eq_true] at hno
+                      simpa using hno l hl
+                    have := prefix_drop_noByte hpre hfree
+                    intro i h1 h2
+                    exact this i (by omega) h2
+              · cases hfin
+          · cases hfl
+        · cases hfl
+      · -- the engine
+        cases hsh : shortest hay with
+        | none => exact absurd hm (heng.none_ hay hsh s e)
+        | some i =>
+          obtain ⟨s1, hm1, hmin⟩ := heng.some_ hay i hsh
+          refine ⟨.confirmed i, rfl, ?_⟩
+          intro t ht
+          have hle := hmin s e hm
+          have hsp := Matches.span hm
+          -- the confirmed match itself is free of the terminator
+          have hfree : NoByteIn t hay s1 i := by
+            rw [noByteIn_iff]
+            have hm1' : Matches lk h0 hay s1 i := matches_wrap cfg hm1
+            subst htb
+            cases hlt : cfg.lineTerm with
+            | none => simp [hlt] at ht
+            | some lt =>
+              simp only [hlt, Option.map_some, Option.getD_some] at ht
+              exact configuredHir_noTerm hcfg hlt hm1'
+                (fun h' hs hm' => strip_sound_lineterm lk translated h' lt hay s1 i hs hm') t ht
+          intro j h1 h2
+          exact hfree j (by omega) h2
+
 /-! ### non-vacuity -/
 
 /-- `[a\n]b` is accepted, rewritten to `[a]b`, and matches `ab`. -/
@@ -101,6 +259,14 @@ example : stripAscii (.concat (.cons (.classB [(10, 10), (97, 97)]) (.cons (.lit
 
 example (lk : LookFn) : Matches lk (.concat (.cons (.classB [(97, 97)]) (.cons (.lit [98]) .nil))) [97, 98] 0 2 :=
   .concat (.cons (.classB (b := 97) rfl rfl) (.cons (.lit (bs := [98]) (s := 1) (by decide) (by decide)) (.nil (by decide))))
+
+/-- `build_many` succeeds on `[a\n]b+` under an LF terminator, with the literal `ab` for the fast path
+(identity optimiser), so the hypotheses of `C11` are satisfiable by a non-trivial case. -/
+example :
+    (({ lineTerm := some (.byte 10), multiLine := true } : Config).build [[91, 97, 92, 110, 93, 98, 43]]
+        (.concat (.cons (.classB [(10, 10), (97, 97)]) (.cons (.rep 1 none true (.lit [98])) .nil)))
+        false id).toOption.map (fun m => (m.fastLits, m.lineTerm))
+      = some (some [⟨[97, 98], false⟩], some (.byte 10)) := by rfl
 
 /-- `a\nb` is rejected. -/
 example : stripAscii (.lit [97, 10, 98]) 10 = .error (.notAllowed 10) := by rfl
